@@ -44,7 +44,7 @@ type Exec struct {
 	inInit   int
 	lastPanic string
 	digested []*Blob
-	lastABI  string
+	lastABI  map[string]string
 	recovers []*recovered
 	recCnt   int
 	packs    []*abiPack
@@ -83,6 +83,7 @@ type Violation struct {
 }
 
 type PathResult struct {
+	PanicClass string
 	Status     string // ok | panic | assumed | error | infeasible
 	Detail     string
 	Asserts    map[string]*oblStat
@@ -547,6 +548,7 @@ func (r *Run) runPath(prefix []dec, tf *TF, solver *Solver) (res *PathResult, al
 				}
 			case *GoPanic:
 				res.Status, res.Detail = "panic", e.Msg+" @ "+e.Stack
+				res.PanicClass = panicClass(e)
 			case *PathEnd:
 				res.Status, res.Detail = "assumed", e.Reason
 			default:
@@ -719,3 +721,29 @@ var forkStat = func() map[string]int {
 	return nil
 }()
 var forkMu sync.Mutex
+
+// panicClass: a stable label for an escaped panic: message without digits + innermost function of the repository.
+func panicClass(p *GoPanic) string {
+	msg := p.Msg
+	var sb strings.Builder
+	for _, r := range msg {
+		if r >= '0' && r <= '9' {
+			continue
+		}
+		sb.WriteRune(r)
+		if sb.Len() > 60 {
+			break
+		}
+	}
+	site := ""
+	for _, fn := range strings.Split(p.Stack, " < ") {
+		if strings.Contains(fn, "MinterTeam/mhub2/") && !strings.Contains(fn, "ZZ") && !strings.Contains(fn, ".zz") && !strings.Contains(fn, "zzverif") {
+			site = fn
+			if i := strings.LastIndex(site, "/"); i >= 0 {
+				site = site[i+1:]
+			}
+			break
+		}
+	}
+	return strings.TrimSpace(sb.String()) + " @ " + site
+}
